@@ -60,6 +60,29 @@ def run_component(ctx, res, seed, lines, post):
         for k in range(0, N, 4):
             base[n][k] = g[rng.randrange(len(g))]
     info = {'seed': seed, 'nin': nin}
+    # 0. call_model with the inputs given as a plain array / nested list: the LAST axis is the variable axis (order of
+    #    Component.inputs) whatever the sizes of the leading (sample) axes — also when a leading axis has length nin
+    dict_out = comp.call_model(dict(base))
+    for lead in ((nin,), (nin + 1,), (nin, 2), (2, nin), (nin, nin), (nin, 1, 2)):
+        n_el = int(np.prod(lead))
+        idx = [rng.randrange(N) for _ in range(n_el)]
+        arr = np.stack([base[n][idx].reshape(lead) for n in names], axis=-1)        # (*lead, nin)
+        for as_list in (False, True):
+            try:
+                out = comp.call_model(arr.tolist() if as_list else arr)
+            except Exception as e:  # noqa: BLE001
+                res.failures.append({'kind': 'model: raised-on-array-input', 'input': {**info, 'lead_shape': list(lead)},
+                                     'observed': repr(e)[:200]})
+                continue
+            for k in ('y0', 'y1'):
+                if k not in out:
+                    continue
+                got, exp = np.asarray(out[k]), np.asarray(dict_out[k])[idx]
+                if got.shape[:len(lead)] != tuple(lead) or not close(got.reshape(n_el, -1), exp.reshape(n_el, -1)):
+                    res.failures.append({'kind': 'model: array-input-differs-from-dict-input',
+                                         'input': {**info, 'lead_shape': list(lead), 'as_list': as_list, 'output': k},
+                                         'observed': {'shape': list(got.shape)}, 'expected': {'shape': list(lead)}})
+        res.hit('array-input-lead-' + 'x'.join(map(str, lead)))
     for which in ('predict', 'model', 'gradient', 'hessian'):
         fn = eval_fn(comp, which)
         full = fn(dict(base))
